@@ -82,7 +82,16 @@ def detect(name, checks, budget="240"):
         if rc:
             print("patch does not apply on current /repo HEAD:", out)
             return 1
+        denv = dict(os.environ, PYTHONPATH=root, NUMBA_CACHE_DIR=os.path.join(scratch, "nbc"))
+        shutil.copy(os.path.join("/verif/seeded", name, "demo.py"), os.path.join(root, "_demo.py"))
+        os.makedirs(os.path.join(root, "_seed", "x"), exist_ok=True)
+        shutil.copy(os.path.join("/verif/seeded", name, "demo.py"), os.path.join(root, "_seed", "x", "demo.py"))
+        rcd, outd = sh([PY, os.path.join("_seed", "x", "demo.py")], root, env=denv)
+        res["demo_on_current_head_with_change_exit"] = rcd
+        print(f"== {name}: demo with the change on current /repo HEAD exits {rcd}")
         for c in checks.split(","):
+            if not c:
+                continue
             env = dict(os.environ, MC_REPO=root, MC_BUDGET=budget, MC_WORKERS=os.environ.get("MC_WORKERS", "8"))
             r = subprocess.run(["/verif/check", c, "--tier", "quick"], env=env, capture_output=True, text=True,
                                cwd="/verif", check=False)
